@@ -843,6 +843,12 @@ class Evaluator:
                     else:
                         rid = self._read("attr", None, e.attr, e)
                         yield st2, V("notnone", None, [rid])
+                elif base.kind in ("sec", "dict") and e.attr in (
+                        "get", "keys", "values", "items", "__getitem__",
+                        "__contains__"):
+                    # bound method taken as a value (``g = cfg.get``): the
+                    # call is evaluated where the alias is applied
+                    yield st2, V("method", (e.value, e.attr), base.prov)
                 else:
                     yield st2, unknown(base.prov)
         elif isinstance(e, ast.Subscript):
@@ -1026,6 +1032,29 @@ class Evaluator:
     def _call(self, e, st, rel):
         name = call_name(e) or ""
         attr = last_attr(e)
+        if isinstance(e.func, ast.Name) and e.func.id in st.env \
+                and st.env[e.func.id].kind == "method":
+            recv_ast, mattr = st.env[e.func.id].val
+            call = ast.Call(func=ast.Attribute(value=recv_ast, attr=mattr,
+                                               ctx=ast.Load()),
+                            args=e.args, keywords=e.keywords)
+            ast.copy_location(call, e)
+            ast.copy_location(call.func, e)
+            yield from self._call(call, st, rel)
+            return
+        if name == "map" and "map" not in st.env and len(e.args) == 2 \
+                and not e.keywords:
+            # map(f, xs) reads like [f(x) for x in xs]
+            var = ast.Name(id="_map_item", ctx=ast.Load())
+            comp = ast.ListComp(
+                elt=ast.Call(func=e.args[0], args=[var], keywords=[]),
+                generators=[ast.comprehension(
+                    target=ast.Name(id="_map_item", ctx=ast.Store()),
+                    iter=e.args[1], ifs=[], is_async=0)])
+            ast.copy_location(comp, e)
+            ast.fix_missing_locations(comp)
+            yield from self._expr(comp, st, rel)
+            return
         # warnings.warn: diagnostic sink
         if name in ("warnings.warn", "print"):
             st.diag_depth += 1
